@@ -2,7 +2,7 @@
 C13 — property theorems about the executable models of the region measurements and label-map
 utilities (`Model/C13.lean`; the driver runs exactly these definitions, the polymorphic fold at `Int`
 and `Float`). Helper lemmas: `Proofs/C13.lean`, `Proofs/C13Maps.lean`, `Proofs/C13Regions.lean`,
-`Proofs/C03Renum.lean`.
+`Proofs/C03Renum.lean`; round 3 (oracle = model): `Proofs/C13Oracles.lean`, `Proofs/C13OraclesNum.lean`.
 -/
 import Mahotas.Proofs.C13
 import Mahotas.Proofs.C13Maps
@@ -10,6 +10,9 @@ import Mahotas.Proofs.C13Regions
 import Mahotas.Proofs.C13BBox
 import Mahotas.Proofs.C13Com
 import Mahotas.Proofs.C13Filter
+import Mahotas.Proofs.C13Oracles
+import Mahotas.Proofs.C13OraclesNum
+import Mahotas.Proofs.C13OraclesFloat
 open Mahotas Mahotas.C13
 
 /-- **C13-T1 (fold_eq, generic).** For every value type, operation `f`, identity `start`, number of
@@ -266,3 +269,270 @@ example : (labeledFold stdMax (1 : Int) 2 [(-5, 1), (-3, 1), (-9, 0)]).toList = 
     (relabel [7, 0, 7, 3, -2, 3]).1 = [1, 0, 1, 2, 3, 2] ∧
     isSameLabeling [7, 0, 7, 3] [1, 0, 1, 2] = true ∧ isSameLabeling [7, 0, 7, 3] [1, 0, 1, 1] = false := by
   decide
+
+/-! ## Round 3 — the executable oracles the harness judges the real code against equal the models
+
+The harness compares the output of the real code with the `spec=` field the driver prints (`handle` in
+`Model/C13.lean`). The theorems below prove, for every input, that each of these executable oracles equals the
+executable model (whose Prop-level characterisation is proved above), so that "real = oracle" on a case means
+"real = proved specification" on that case. Hypotheses are the ones under which oracle and model can be compared
+at all; each docstring says what happens outside them. -/
+
+/-- **C13 oracle (relabel).** For every list of labels (any length, any integers, negative ones included) the
+executable oracle `relabelSpec` — 0 stays 0, a non-zero value gets 1 + the number of distinct non-zero values
+whose first occurrence precedes its own, count = number of distinct non-zero values — returns exactly the pair
+(new label map, count) that the model of the `relabel` loop returns. No hypothesis. -/
+theorem C13_relabel_oracle_eq_model (labels : List Int) : relabelSpec labels = relabel labels :=
+  relabelSpec_eq labels
+
+/-- **C13 oracle (is_same_labeling).** For every pair of label lists (compared position-wise over the common
+length, as both definitions `zip`) the quadratic oracle `sameSpec` — every pair agrees on "is background" and
+every two pairs agree on "same label" in both maps — gives the same Boolean as the model of the two-`std::map`
+loop. No hypothesis. (Both are equivalent to the partial-bijection statement of `C13_same_labeling_iff`.) -/
+theorem C13_same_oracle_eq_model (a b : List Int) : sameSpec a b = isSameLabeling a b := by
+  rw [Bool.eq_iff_iff, sameSpec_iff, C13_same_labeling_iff]
+
+/-- **C13 oracle (remove_regions).** For every label list and every list of regions the oracle (zero the pixels
+whose label is a member of `regions`) equals the model (`np.unique` + `std::binary_search`). No hypothesis. -/
+theorem C13_remove_regions_oracle_eq_model (labels regions : List Int) :
+    removeRegionsSpec labels regions = removeRegions labels regions :=
+  (removeRegions_eq_spec labels regions).symm
+
+/-- **C13 oracle (remove_bordering).** For a label map that fills its shape (any rank, zero-length axes included)
+and any `rsize` the oracle (zero the non-zero regions having a pixel closer than `rsize` to a face) equals the
+model (Python border slabs). Without `labels.length = shapeSize shape` the two are not comparable (the
+coordinates of a flat index are then not those of a pixel); the harness always passes full arrays. -/
+theorem C13_remove_bordering_oracle_eq_model (shape : List Nat) (labels : List Int) (rsize : List Nat)
+    (hlen : labels.length = shapeSize shape) :
+    removeBorderingSpec shape labels rsize = removeBordering shape labels rsize :=
+  (removeBordering_eq_spec shape labels rsize hlen).symm
+
+/-- **C13 oracle (filter_labeled).** For a non-negative label map that fills its shape, every choice of
+`remove_bordering`, `min_size`, `max_size` (0 = not given): the oracle — `relabelSpec` of the map in which
+exactly the selected regions are zeroed — returns the same (label map, count) as the model of the wrapper's
+pipeline. Negative labels are outside the domain (the wrapper's `labeled_size` is undefined there). -/
+theorem C13_filter_labeled_oracle_eq_model (shape : List Nat) (labels : List Int) (rb : Bool)
+    (minSize maxSize : Nat) (hnn : ∀ v ∈ labels, 0 ≤ v) (hlen : labels.length = shapeSize shape) :
+    filterLabeledSpec shape labels rb minSize maxSize = filterLabeled shape labels rb minSize maxSize :=
+  filterLabeledSpec_eq shape labels rb minSize maxSize hnn hlen
+
+/-- **C13 oracle (bbox, generic path).** For an image of rank ≥ 1 that fills its shape the oracle `bboxSpec`
+(per axis the least coordinate and the greatest coordinate + 1 over the non-zero pixels) is `none` exactly when
+every pixel is zero, and otherwise it is `some` of exactly the list the model of the generic `bbox` loop returns.
+For an all-zero image (where the statement is silent and the harness compares with the model only) the model
+returns zeros. -/
+theorem C13_bbox_oracle_eq_model (shape : List Nat) (data : List Int) (hlen : data.length = shapeSize shape)
+    (hnd : 0 < shape.length) :
+    bboxSpec shape data = (if data.all (· == 0) then none else some (bboxGeneric shape data)) ∧
+    (data.all (· == 0) = true → bboxGeneric shape data = List.replicate (2 * shape.length) 0) :=
+  bboxSpec_eq_ite shape data hlen hnd
+
+/-- **C13 oracle (bbox, C-contiguous 2-D fast path).** The same for the model of `carray2_bbox` (the `fast=`
+field of the driver, judged on aligned C-contiguous 2-D inputs): for every `N0 × N1` image the oracle is `none`
+for an all-zero image and otherwise `some` of what the skip-ahead loop returns. -/
+theorem C13_bbox_fast_oracle_eq_model (N0 N1 : Nat) (data : List Int) (hlen : data.length = N0 * N1) :
+    bboxSpec [N0, N1] data = (if data.all (· == 0) then none else some (bboxFast N0 N1 data)) := by
+  rw [bboxFast_eq_generic N0 N1 data hlen]
+  exact (bboxSpec_eq_ite [N0, N1] data (by simp [shapeSize, hlen]) (by simp)).1
+
+/-- **C13 oracle (labeled.bbox).** For a non-negative label map that fills a shape of rank ≥ 1 and every `n`
+(the driver passes the largest label) the oracle — for each label `0..n` the `bboxSpec` box of its indicator
+image, zeros for an absent label — is exactly the list the model of `bbox_labeled` returns, rows of absent
+labels included. Negative labels are outside the domain (the kernel indexes `extrema + label*2*nd`). -/
+theorem C13_bbox_labeled_oracle_eq_model (shape : List Nat) (labels : List Int) (n : Nat)
+    (hnn : ∀ v ∈ labels, 0 ≤ v) (hlen : labels.length = shapeSize shape) (hnd : 0 < shape.length) :
+    bboxLabeledSpec shape labels n = bboxLabeled shape labels n :=
+  bboxLabeledSpec_eq shape labels n hnn hlen hnd
+
+/-- **C13 oracle (borders, six modes).** For every label list and every list of offsets the oracle (mathematical
+border rule) is the model (transliterated `fix_offset`) when all axes are non-empty or there is no pixel at all —
+which covers every array that fills its shape (second statement). -/
+theorem C13_borders_oracle_eq_model (m : Mode) (shape : List Nat) (labels : List Int) (offs : List (List Int)) :
+    ((∀ d ∈ shape, 0 < d) ∨ labels = [] → bordersSpec m shape labels offs = bordersModel m shape labels offs) ∧
+    (labels.length = shapeSize shape → bordersSpec m shape labels offs = bordersModel m shape labels offs) :=
+  ⟨bordersSpec_eq m shape labels offs,
+   fun hlen => bordersSpec_eq m shape labels offs (pos_or_nil_of_full shape labels hlen)⟩
+
+/-- **C13 oracle (border(i, j)).** For a structuring element of the rank of the image the oracle is the model. -/
+theorem C13_border_oracle_eq_model (shape : List Nat) (labels : List Int) (bshape : List Nat) (bc : Array Int)
+    (hnd : bshape.length = shape.length) (li lj : Int) :
+    borderSpec2 shape labels (C03.offsets bshape bc) li lj = borderModel shape labels (C03.offsets bshape bc) li lj :=
+  (C13_border_spec shape labels bshape bc hnd li lj).symm
+
+/-- **C13 oracle (bwperim).** The oracle is the model when all axes are non-empty or there is no pixel at all;
+in particular for every array that fills its shape. -/
+theorem C13_bwperim_oracle_eq_model (m : Mode) (shape : List Nat) (bw : List Int) (offs : List (List Int)) :
+    ((∀ d ∈ shape, 0 < d) ∨ bw = [] → bwperimSpec m shape bw offs = bwperim m shape bw offs) ∧
+    (bw.length = shapeSize shape → bwperimSpec m shape bw offs = bwperim m shape bw offs) :=
+  ⟨bwperimSpec_eq m shape bw offs, fun hlen => bwperimSpec_eq m shape bw offs (pos_or_nil_of_full shape bw hlen)⟩
+
+/-- **C13 oracle (labeled_sum, integer and bool dtypes).** Slot `l < n` of the oracle the driver prints for
+`op=sum` (`foldSpec`: the exact integer sum of the values labelled `l`; for bool the `or`) equals slot `l` of the
+model, for bool data always and for every integer dtype whenever the exact sum is representable in the dtype.
+When it is not representable the two differ by design (the model wraps around, as `std::plus<T>` does; the
+statement is silent and the harness masks exactly these slots). -/
+theorem C13_labeled_sum_oracle_eq_model (dt : DT) (n : Nat) (px : List (Int × Int)) (l : Nat) (hl : l < n)
+    (h : dt = dtBool ∨ (dt.WF ∧ dt.InRange (valuesOf px (l : Int)).sum)) :
+    (foldSpec dt.isBool "sum" n px)[l]? = (sumInt dt n px)[l]? := by
+  rcases h with rfl | ⟨wf, hr⟩
+  · rw [orSpec_eq_model]; simp
+  · exact sumSpec_slot_eq_model dt wf n px l hl hr
+
+/-- **C13 oracle (labeled_max / labeled_min, integer dtypes).** For every integer dtype range containing the
+values of label `l`, and `l` non-empty, slot `l` of the oracle (`foldl max/min` from the first value) equals slot
+`l` of the models `maxInt` / `minInt` (folds of `std_like_max/min` from `lowest()` / `max()`). For an empty label
+they differ by design (oracle 0, model the identity): the statement is silent and the harness masks those slots. -/
+theorem C13_labeled_max_min_oracle_eq_model (dt : DT) (n : Nat) (px : List (Int × Int)) (l : Nat) (hl : l < n)
+    (hne : valuesOf px (l : Int) ≠ []) (hr : ∀ v ∈ valuesOf px (l : Int), dt.InRange v) :
+    (foldSpec dt.isBool "max" n px)[l]? = (maxInt dt n px)[l]? ∧
+    (foldSpec dt.isBool "min" n px)[l]? = (minInt dt n px)[l]? :=
+  maxSpec_slot_eq_exact dt.isBool dt.lo dt.hi n px l hl hne (fun v hv => (hr v hv).1) (fun v hv => (hr v hv).2)
+
+/-- **C13 oracle (labeled_sum/max/min, float dtypes) — partial.** For float data `k / scale` the driver's oracle
+is `Float.ofInt v / scale` applied entrywise to `foldSpec false op n` of the scaled integers `k`. Proved here:
+that integer list is exactly the polymorphic model `labeledFold` (the definition the driver runs at `Float`)
+instantiated at ℤ with exact `+` (every slot, every input) and with `std_like_max/min` from any identities that
+bound the values (every non-empty label). **Not proved** (validated by the run only): that `Float` addition and
+comparison on the dyadic data the harness generates commute with `Float.ofInt · / scale` — Lean's `Float`
+operations are opaque. The theorems `C13_labeled_sum_float_oracle_eq_model_of_exact` and
+`C13_labeled_max_min_float_oracle_eq_model_of_monotone` below prove the `Float` instance equal to the oracle
+under exactly these facts as hypotheses. -/
+theorem C13_labeled_float_oracle_partial (n : Nat) (px : List (Int × Int)) :
+    foldSpec false "sum" n px = (labeledFold (fun a r => a + r) (0 : Int) n px).toList ∧
+    ∀ (lowest highest : Int) (l : Nat), l < n → valuesOf px (l : Int) ≠ [] →
+      (∀ v ∈ valuesOf px (l : Int), lowest ≤ v) → (∀ v ∈ valuesOf px (l : Int), v ≤ highest) →
+      (foldSpec false "max" n px)[l]? = (labeledFold stdMax lowest n px)[l]? ∧
+      (foldSpec false "min" n px)[l]? = (labeledFold stdMin highest n px)[l]? :=
+  ⟨sumSpec_eq_exact n px, fun lowest highest l hl hne hlo hhi =>
+    maxSpec_slot_eq_exact false lowest highest n px l hl hne hlo hhi⟩
+
+/-- **C13 oracle (labeled_size / fullhistogram).** For non-negative values (0/1 for a bool image) the oracle
+`countSpec` (bin `i` = number of pixels equal to `i`, as many bins as the model returns) is exactly the list the
+model of `fullhistogram` returns (`compute_histogram` into `max + 1` bins; `[zeros, ones]` for bool). Negative
+values are outside the domain (the kernel would index before the buffer; the wrappers reject signed input). -/
+theorem C13_hist_oracle_eq_model (isBool : Bool) (vals : List Int) (hv : ∀ v ∈ vals, 0 ≤ v)
+    (hb : isBool = true → ∀ v ∈ vals, v ≤ 1) :
+    countSpec vals (fullHistogram isBool vals).length = fullHistogram isBool vals :=
+  countSpec_eq_model isBool vals hv hb
+
+/-- **C13 oracle (center_of_mass).** Over any field (ℚ, ℝ, …), for non-negative labels (`labels = []` = no label
+map) and integer data `ks`: the exact fractions `(Σ k·coord_j, Σ k)` that the oracle `comSpec` computes, read in the
+field, are — entry for entry, rows of empty labels (`0/0`) included — the output of the polymorphic model
+`comModelG` (the definition the driver runs with `Float` operations) run with the operations of that field on the
+same data. The `Float` instance itself is validated by the run (data chosen so that every partial sum is exact;
+entries with denominator 0 are masked there, `ok=`); `C13_com_float_oracle_eq_model_of_exact` below proves it
+equal to the oracle under explicit exactness hypotheses. -/
+theorem C13_com_oracle_eq_model {α : Type} [Field α] (shape : List Nat) (ks : List Int) (labels : List Int)
+    (hnn : ∀ v ∈ labels, 0 ≤ v) :
+    (comSpec shape ks labels).map (fun nd => ((nd.1 : Int) : α) / ((nd.2 : Int) : α)) =
+      comModelG (fieldOps α) shape (ks.map fun k => ((k : Int) : α)) labels :=
+  comSpec_eq_model shape ks labels hnn
+
+/-- **C13 oracle (labeled_sum at `Float`, conditional).** About the very definitions the driver runs for float
+data: with `emb k = Float.ofInt k / scale` (any function `emb : ℤ → Float` here) the driver's model is
+`sumFloat n ((data.map emb).zip labels)` and its oracle is `(foldSpec false "sum" n (data.zip labels)).map emb`.
+They agree in slot `l < n` **provided** `emb 0 = 0.0` and every partial sum of the values labelled `l` is exact:
+`emb a + emb s = emb (a + s)` whenever `a` is a value labelled `l` and `s` the sum of the values labelled `l`
+before it. These two facts about IEEE arithmetic on the dyadic data the harness generates are the whole
+remaining trusted gap for `labeled_sum` on floats (Lean's `Float` is opaque; they are validated by the run). -/
+theorem C13_labeled_sum_float_oracle_eq_model_of_exact (emb : Int → Float) (n : Nat) (data labels : List Int)
+    (l : Nat) (hl : l < n) (h0 : emb 0 = 0.0)
+    (hexact : ∀ pre a rest, valuesOf (data.zip labels) (l : Int) = pre ++ a :: rest →
+      emb a + emb pre.sum = emb (a + pre.sum)) :
+    (sumFloat n ((data.map emb).zip labels))[l]? = ((foldSpec false "sum" n (data.zip labels)).map emb)[l]? := by
+  rw [List.getElem?_map]
+  exact sumFloat_slot_of_exact emb n data labels l hl h0 hexact
+
+/-- **C13 oracle (labeled_max / labeled_min at `Float`, conditional).** Same setting. The models
+`maxFloat lowest` / `minFloat highest` agree with the image of the integer oracle under `emb` in the slot of every
+non-empty label **provided** `emb` is strictly monotone on the values of that label (`emb a < emb b ↔ a < b`,
+Float comparison) and the identities do not beat any value (`¬ emb v < lowest`, `¬ highest < emb v` — true for
+`lowest()`/`max()`, false for the pinned `numeric_limits<double>::min()`: defect #22). -/
+theorem C13_labeled_max_min_float_oracle_eq_model_of_monotone (emb : Int → Float) (lowest highest : Float)
+    (n : Nat) (data labels : List Int) (l : Nat) (hl : l < n)
+    (hne : valuesOf (data.zip labels) (l : Int) ≠ [])
+    (hlow : ∀ v ∈ valuesOf (data.zip labels) (l : Int), ¬ (emb v < lowest))
+    (hhigh : ∀ v ∈ valuesOf (data.zip labels) (l : Int), ¬ (highest < emb v))
+    (hmono : ∀ a ∈ valuesOf (data.zip labels) (l : Int), ∀ b ∈ valuesOf (data.zip labels) (l : Int),
+      (emb a < emb b ↔ a < b)) :
+    (maxFloat lowest n ((data.map emb).zip labels))[l]? =
+      ((foldSpec false "max" n (data.zip labels)).map emb)[l]? ∧
+    (minFloat highest n ((data.map emb).zip labels))[l]? =
+      ((foldSpec false "min" n (data.zip labels)).map emb)[l]? := by
+  rw [List.getElem?_map, List.getElem?_map]
+  exact maxMinFloat_slot_of_monotone emb lowest highest n data labels l hl hne hlow hhigh hmono
+
+/-- **C13 oracle (center_of_mass at `Float`, conditional).** About the very definition the driver runs
+(`comModel = comModelG floatOps`) on the data `ks.map emb` (the driver: `emb k = Float.ofInt k / scale`), for
+non-negative labels (`labels = []` = no label map): the model's output is, entry for entry, `emb num / emb den`
+of the exact integer pairs `(num, den) = (Σ k·coord_j, Σ k)` the oracle `comSpec` computes, **provided**
+`emb 0 = 0.0` and every step of the two accumulations of the kernel is exact on the pixels of each label in scan
+order: `totals[l] += v` (`emb s + emb k = emb (s + k)`) and `centers[l][j] += v * coord_j`
+(`emb s + emb k * Float.ofNat c = emb (s + k·c)`). The driver prints the oracle as
+`Float.ofInt num / Float.ofInt den`, which is `emb num / emb den` when dividing both by the power of two `scale`
+is exact. These IEEE facts on the data the harness generates (|values| < 2^53, dyadic) are the whole remaining
+trusted gap for `center_of_mass` (Lean's `Float` is opaque; validated by the run). -/
+theorem C13_com_float_oracle_eq_model_of_exact (emb : Int → Float) (shape : List Nat) (ks labels : List Int)
+    (hnn : ∀ v ∈ labels, 0 ≤ v) (h0 : emb 0 = 0.0)
+    (htot : ∀ (l : Nat) (pre : List Nat) (i : Nat) (rest : List Nat),
+      ((List.range ks.length).filter fun i => labels.getD i 0 == (l : Int)) = pre ++ i :: rest →
+      emb (pre.map fun i => ks.getD i 0).sum + emb (ks.getD i 0) =
+        emb ((pre.map fun i => ks.getD i 0).sum + ks.getD i 0))
+    (hrow : ∀ (l j : Nat), j < shape.length → ∀ (pre : List Nat) (i : Nat) (rest : List Nat),
+      ((List.range ks.length).filter fun i => labels.getD i 0 == (l : Int)) = pre ++ i :: rest →
+      emb (pre.map fun i => ks.getD i 0 * ((unravel shape i).getD j 0 : Nat)).sum +
+          emb (ks.getD i 0) * Float.ofNat ((unravel shape i).getD j 0) =
+        emb ((pre.map fun i => ks.getD i 0 * ((unravel shape i).getD j 0 : Nat)).sum +
+          ks.getD i 0 * ((unravel shape i).getD j 0 : Nat))) :
+    comModel shape (ks.map emb) labels = (comSpec shape ks labels).map fun nd => emb nd.1 / emb nd.2 :=
+  comModelG_of_exact floatOps emb shape ks labels hnn h0 htot hrow
+
+/-- **C13 oracle soundness (relabel).** The oracle `relabelSpec` itself satisfies the Prop-level characterisation
+of `C13_relabel_spec`: one function fixing 0, injective on the occurring labels, new labels `1..n` in order of
+first appearance, `n` returned. -/
+theorem C13_relabel_oracle_sound (labels : List Int) :
+    (∃ f : Int → Int, (relabelSpec labels).1 = labels.map f ∧ f 0 = 0 ∧ (∀ v ∈ labels, v ≠ 0 → 1 ≤ f v) ∧
+      (∀ a b, (a ∈ labels ∨ a = 0) → (b ∈ labels ∨ b = 0) → f a = f b → a = b)) ∧
+    C03.Consec 1 (relabelSpec labels).1 ∧
+    (∀ l ∈ (relabelSpec labels).1, l ≤ (relabelSpec labels).2) ∧
+    (∀ k, 1 ≤ k → k ≤ (relabelSpec labels).2 → k ∈ (relabelSpec labels).1) := by
+  rw [C13_relabel_oracle_eq_model]
+  exact C13_relabel_spec labels
+
+/-- **C13 oracle soundness (is_same_labeling).** The oracle `sameSpec` answers `true` exactly when the pairs of
+corresponding labels together with `(0, 0)` form a partial bijection. -/
+theorem C13_same_oracle_sound (a b : List Int) :
+    sameSpec a b = true ↔ PBij (fun x y => (x = 0 ∧ y = 0) ∨ (x, y) ∈ a.zip b) :=
+  sameSpec_iff a b
+
+/-- **C13 oracle soundness (bbox).** When the oracle returns a box `b` for an image of rank ≥ 1 filling its
+shape, there is a non-zero pixel, on every axis `j` the box contains every non-zero pixel
+(`b[2j] ≤ p_j < b[2j+1]`) and both bounds are attained by non-zero pixels. -/
+theorem C13_bbox_oracle_sound (shape : List Nat) (data : List Int) (hlen : data.length = shapeSize shape)
+    (hnd : 0 < shape.length) (b : List Int) (hb : bboxSpec shape data = some b) (j : Nat) (hj : j < shape.length) :
+    let ps := ((List.range data.length).filter fun i => data.getD i 0 ≠ 0).map (unravelI shape)
+    ps ≠ [] ∧ (∀ p ∈ ps, b.getD (2 * j) 0 ≤ p.getD j 0 ∧ p.getD j 0 + 1 ≤ b.getD (2 * j + 1) 0) ∧
+    (∃ p ∈ ps, p.getD j 0 = b.getD (2 * j) 0) ∧ (∃ p ∈ ps, p.getD j 0 + 1 = b.getD (2 * j + 1) 0) :=
+  bboxSpec_sound shape data hlen hnd b hb j hj
+
+/-! non-vacuity of the oracle theorems: the oracles compute non-trivial values on small inputs, and the
+    hypotheses are satisfiable (a 2 × 3 image, labels with a gap, an out-of-range sum for the masked case) -/
+example : relabelSpec [7, 0, 7, 3, -2, 3] = ([1, 0, 1, 2, 3, 2], 3) ∧
+    sameSpec [7, 0, 7, 3] [1, 0, 1, 2] = true ∧ sameSpec [7, 0, 7, 3] [1, 0, 1, 1] = false ∧
+    bboxSpec [2, 3] [0, 0, 1, 0, 1, 0] = some [0, 2, 1, 3] ∧ bboxSpec [2, 3] [0, 0, 0, 0, 0, 0] = none ∧
+    bboxLabeledSpec [2, 2] [0, 2, 2, 0] 2 = [0, 2, 0, 2, 0, 0, 0, 0, 0, 2, 0, 2] ∧
+    foldSpec false "sum" 2 [(100, 1), (100, 1), (-9, 0)] = [-9, 200] ∧
+    (sumInt (dtI 8) 2 [(100, 1), (100, 1), (-9, 0)]).toList = [-9, -56] ∧
+    foldSpec false "max" 2 [(-5, 1), (-3, 1), (-9, 0)] = [-9, -3] ∧
+    countSpec [0, 2, 2, 1] 3 = [1, 1, 2] ∧
+    comSpec [2, 2] [1, 2, 3, 4] [] = [(7, 10), (6, 10)] ∧
+    filterLabeledSpec [1, 4] [1, 1, 0, 2] false 2 0 = ([1, 1, 0, 0], 1) := by
+  decide
+
+/-! non-vacuity of the conditional transfer theorem: its exactness hypotheses hold in every field (exact
+    arithmetic), where it re-proves `C13_com_oracle_eq_model`; at `Float` they are IEEE facts Lean cannot state -/
+example {α : Type} [Field α] (shape : List Nat) (ks labels : List Int) (hnn : ∀ v ∈ labels, 0 ≤ v) :
+    comModelG (fieldOps α) shape (ks.map fun k => ((k : Int) : α)) labels =
+      (comSpec shape ks labels).map fun nd => ((nd.1 : Int) : α) / ((nd.2 : Int) : α) :=
+  comModelG_of_exact (fieldOps α) (fun k => ((k : Int) : α)) shape ks labels hnn (by simp [fieldOps])
+    (by intros; simp [fieldOps]) (by intros; simp [fieldOps])
